@@ -134,7 +134,7 @@ PROPS["C15"] = dict(
                      thorough=dict(split=[list(range(0, 14))], unwind=24, timeout=1800, bounds="every input of length 0..13"))),
         dict(id="C15.f", harness="C15_streams.cpp", entry="h_c15f_escape_ostream", ctors=False, big_alloc=288,
              desc="util::escape(begin,end,std::ostream&) == the streambuf form (C15.a); failbit <=> the sink failed; a failed stream is not written to",
-             tiers=T(quick=dict(split=[[0, 1, 2], [0, 1]], unwind="6*p0+3", timeout=900, bounds="every input of length 0..2, sink failing after any number of bytes; stream failed beforehand or not (one solver instance each)"))),
+             tiers=T(quick=dict(split=[[0, 1], [0, 1, 2]], unwind="6*p0+3", timeout=600, bounds="every input of length 0..1 x {accepting sink, stream failed beforehand, sink that accepts nothing} (length 2 needed 24 GB)"))),
         dict(id="C15.g", harness="C15_streams.cpp", entry="h_c15g_urlencode_forms", ctors=False, cut=[STRING_REALLOC],
              desc="util::urlencode(b,e,std::ostream&) (ostream_iterator / operator<<) and util::urlencode(std::string) == the streambuf form (C15.b)",
              tiers=T(quick=dict(split=[[0, 1, 2, 3]], unwind=20, timeout=600, bounds="every input of length 0..3"))),
